@@ -13,16 +13,15 @@ S=$(mktemp -d /tmp/benchk.XXXXXX); rmdir "$S"
 git -C /repo worktree add -q --detach "$S" HEAD
 ( cd "$S" && git apply "$OUT/patch.diff" ) || { echo "PATCH DOES NOT APPLY"; git -C /repo worktree remove --force "$S"; exit 1; }
 SUITE=$(cd "$S" && go build ./... 2>&1 && go test -vet=off -count=1 ./... 2>&1 | grep -v '^ok\|no test files' | head -5)
-git -C /repo worktree remove --force "$S"
 echo "suite with refactoring (empty = all ok): [$SUITE]"
-git -C /repo apply "$OUT/patch.diff" || { echo "cannot apply to /repo"; exit 1; }
+# the checks run on the scratch worktree; /repo is not touched
 ALARMS=""
 for i in 01 02 03 04 05 06 07 08 09 10 11 12 13 14 15 16 17 18 19; do
   mkdir -p /tmp/benverif.$$; cp /verif/known_findings.json /tmp/benverif.$$/
-  R=$(/verif/bin/verifcheck check C$i --verif /tmp/benverif.$$ 2>&1 | grep -v '^KNOWN')
+  R=$(/verif/bin/verifcheck check C$i --repo "$S" --verif /tmp/benverif.$$ 2>&1 | grep -v '^KNOWN')
   if echo "$R" | grep -q '^VIOLATION\|^CHECK-BROKEN'; then ALARMS="$ALARMS C$i"; echo "== C$i FALSE ALARM:"; echo "$R" | grep -v '^VIOLATION\|witness' | head -4 | cut -c1-300; fi
 done
-git -C /repo checkout -- .
+git -C /repo worktree remove --force "$S"
 rm -rf /tmp/benverif.$$
 python3 - "$OUT" "$SUITE" "$ALARMS" <<'EOF'
 import json,sys
